@@ -314,7 +314,9 @@ def run(pid, tier, seed):
         if ok_all and all(r[3] for r in lp.rows):       # a dropped empty row may have been an infeasible one: compare solves only without empty rows
             sv = [blk for op, blk in tr if op.startswith("solve")]
             res = [(proto.get(b, "rval"), proto.get(b, "status"), proto.get(b, "objval") if proto.get(b, "status") == ["1"] else None) for b in sv]
-            if len(set(map(str, res))) > 1:
+            # only definitive answers are statements about the problem (a limit or UNSOLVED on one rendering is C03's subject)
+            definitive = [r for r in res if r[0] == ["0"] and r[1] in (["1"], ["2"], ["3"])]
+            if len(set(map(str, definitive))) > 1 or len(set(str(r[0]) for r in res)) > 1:
                 rep.violation("original, read-back and other-format problem solve differently: %s" % res, ctx, signature={"symptom": "solve-differs"})
         gfs = [(op, blk) for op, blk in tr if op.startswith("getfile")]
         if orig is not None and len(gfs) >= 3:
